@@ -11,7 +11,8 @@
 (*                                   getUniqueNamespaceValue (2975), addResultNamespace (2727),   *)
 (*                                   copyNamespaceAttributes (2781), cloneToResultTree (2139),    *)
 (*                                   checkDefaultNamespace (1921), copyAttributesToAttList (2938) *)
-(*   PlatformSupport/AttributeListImpl.cpp addAttribute (the list is keyed by the QName string)   *)
+(*   PlatformSupport/AttributeListImpl.cpp addAttribute (the list is keyed by the QName string;   *)
+(*                                   addResultAttribute looks the expanded name up first)         *)
 (*   XSLT/NamespacesHandler.cpp      constructor (266), processExcludeResultPrefixes (374, 745),  *)
 (*                                   postConstruction (501), copyExcludeResultPrefixes,           *)
 (*                                   processNamespaceAliases (790), getNamespace (341),           *)
@@ -26,10 +27,11 @@
 (* prefixes ns0, ns1.. and xmlns attributes included - plus the set of KD_ classes the execution  *)
 (* passed through.  The algorithm does NOT satisfy ResultTree's obligations everywhere: the       *)
 (* deviating leaves are named KD_<key> below; MC_NsFixup checks that they are the only ones.      *)
-(* State of the code transcribed: /repo with the nine repairs of /verif/fixes/C14-*.patch applied  *)
-(* (shadowed prefixes, skipped declarations, xmlns / xml / undeclared prefixes, namespace="",       *)
-(* xmlns="" as literal attribute, alias on xsl:attribute, copied attributes); three deviation       *)
-(* classes remain.                                                                                 *)
+(* State of the code transcribed: /repo with the eleven repairs of /verif/fixes/C14-*.patch        *)
+(* applied (shadowed prefixes, skipped declarations, xmlns / xml / undeclared prefixes,             *)
+(* namespace="", xmlns="" as literal attribute, alias on xsl:attribute, copied attributes, pending  *)
+(* attributes looked up by expanded name, xsl:attribute never re-declares a prefix that is bound to *)
+(* another namespace); one deviation class remains (staleExcludedPrefix).                          *)
 (* Not transcribed (never generated): invalid QNames, xsl:attribute after a child node, copying   *)
 (* namespace nodes selected with the namespace axis, extension namespaces, imports.               *)
 EXTENDS ResultTree
@@ -64,8 +66,6 @@ PrefixForNs(S, u) == LET d == Decls(S)
                      IN IF f # Null /\ NsForPrefix(S, f) # u THEN Null ELSE f
 PresentLocal(S, p) == S.stk # <<>> /\ \E i \in 1..Len(S.stk[Len(S.stk)]) : S.stk[Len(S.stk)][i][1] = p
 AddDecl(S, p, u) == [S EXCEPT !.stk[Len(S.stk)] = Append(@, <<p, u>>)]
-(* what a parser will make of prefix p on the pending start tag, as far as declared by now *)
-BoundUri(S, p) == IF p = "" THEN "" ELSE IF p = "xml" THEN XMLNS ELSE LET d == Decls(S) IN FindBack(d, Len(d), p, 1)
 
 (* AttributeListImpl::addAttribute: same QName string -> the value is replaced in place *)
 PutAttr(S, p, l, v) ==
@@ -73,11 +73,13 @@ PutAttr(S, p, l, v) ==
   IN IF hit # {} THEN [S EXCEPT !.pa[CHOOSE i \in hit : TRUE].v = v]
      ELSE [S EXCEPT !.pa = Append(@, [p |-> p, l |-> l, v |-> v])]
 
-(* KD_attrListKeyedByQName: an attribute with the same expanded name but another QName is already  *)
-(* pending; the new one is appended instead of replacing it (two constructors, one expanded name)  *)
-KD_attrListKeyedByQName(S, p, l) ==
-  \E i \in 1..Len(S.pa) : /\ ~IsDecl(S.pa[i]) /\ S.pa[i].l = l /\ S.pa[i].p # p
-                          /\ BoundUri(S, p) # Null /\ BoundUri(S, S.pa[i].p) = BoundUri(S, p)
+(* addResultAttribute, ordinary attribute with a prefix: the first pending attribute with the same *)
+(* local name whose prefix resolves (getResultNamespaceForPrefix, as declared by now) to the same   *)
+(* namespace as p does - that one's value is replaced (XSLT 7.1.3: same expanded name); 0 = none    *)
+SameExpandedName(S, p, l) ==
+  LET ns  == NsForPrefix(S, p)
+      hit == {i \in 1..Len(S.pa) : S.pa[i].p # "" /\ S.pa[i].l = l /\ NsForPrefix(S, S.pa[i].p) = ns}
+  IN IF p = "" \/ ns = Null \/ hit = {} THEN 0 ELSE CHOOSE i \in hit : \A j \in hit : i <= j
 
 (* XSLTEngineImpl::addResultAttribute *)
 AddResultAttr(S, p, l, v, fromCopy) ==
@@ -94,7 +96,7 @@ AddResultAttr(S, p, l, v, fromCopy) ==
     IN IF ns = Null THEN PutAttr(AddDecl(S, l, v), p, l, v)
        ELSE IF ns # v THEN IF ~fromCopy THEN PutAttr(AddDecl(S, l, v), p, l, v) ELSE [S EXCEPT !.err = TRUE]
        ELSE S
-  ELSE PutAttr(IF KD_attrListKeyedByQName(S, p, l) THEN Tag(S, "attrListKeyedByQName") ELSE S, p, l, v)
+  ELSE LET k == SameExpandedName(S, p, l) IN PutAttr(S, IF k = 0 THEN p ELSE S.pa[k].p, l, v)
 
 AddNsAttr(S, prefix, uri) == IF prefix = "" THEN AddResultAttr(S, "", "xmlns", uri, FALSE) ELSE AddResultAttr(S, "xmlns", prefix, uri, FALSE)
 
@@ -201,8 +203,9 @@ ExecAttribute(ss, S, ins, nss0, parH) ==
             THEN (* re-use the prefix found for the namespace *)
                  AddResultAttr(S, found, l, ins.v, FALSE)
             ELSE LET isXmlns == p = "xmlns" \/ (p = "xml" /\ ins.ns # XMLNS)         \* prefixes that cannot be declared for this namespace
+                     (* a prefix bound to another namespace is never re-declared, pending or not *)
                      keep == /\ p # "" /\ ~isXmlns
-                             /\ ~(LET t == NsForPrefix(S, p) IN t # Null /\ t # ins.ns /\ IsPendingResultPrefix(S, p))
+                             /\ ~(LET t == NsForPrefix(S, p) IN t # Null /\ t # ins.ns)
                      U  == Unique(S)
                      np == IF keep THEN p ELSE U.prefix
                      S1 == IF keep THEN S ELSE U.S
@@ -319,15 +322,14 @@ ExecBody(ss, src, S, body, i, nss, H, kids, fr) ==
 
 (* ElemLiteralResult::evaluateAVTs: the attributes of the element that are neither namespace       *)
 (* declarations (xmlns, xmlns:p) nor in the XSLT namespace                                         *)
-(* KD_literalAttributePrefixRebound: the attribute sets run BEFORE the element's own attributes   *)
-(* are added; an xsl:attribute of a set may declare prefix P on the pending start tag (P is not yet *)
-(* "pending"), and the literal attribute P:a added afterwards lands in that namespace              *)
+(* (the attribute sets run BEFORE the element's own attributes are added; since xsl:attribute no   *)
+(* longer re-declares a prefix that is bound to another namespace, the prefixes of the literal      *)
+(* attributes still resolve as outputResultNamespaces left them)                                   *)
 RECURSIVE LreAttrs(_, _, _, _, _)
 LreAttrs(ss, S, attrs, i, nss) ==
   IF i > Len(attrs) THEN S
-  ELSE LET a  == attrs[i]
-           St == IF a.p \notin {"", "xml"} /\ BoundUri(S, a.p) # Aliased(ss, LookupNss(nss, a.p)) THEN Tag(S, "literalAttributePrefixRebound") ELSE S
-       IN LreAttrs(ss, AddResultAttr(St, a.p, a.l, a.v, FALSE), attrs, i + 1, nss)
+  ELSE LET a == attrs[i]
+       IN LreAttrs(ss, AddResultAttr(S, a.p, a.l, a.v, FALSE), attrs, i + 1, nss)
 
 ExecElem(ss, src, S, ins, nss0, parH) ==
   CASE ins.i = "lre" ->
@@ -401,12 +403,9 @@ Run(ss, src) ==
 (* that explains it is a defect of the algorithm (MC_NsFixup) / of the code (triage in c14.py)     *)
 NotWF == {"serialised-result-not-wellformed"}
 KDFaults(t) ==
-  CASE t = "attrListKeyedByQName"         -> {"duplicate-expanded-attribute-name", "attribute-value", "attribute-name"} \cup NotWF
-    [] t = "staleExcludedPrefix"          -> {"element-name", "default-namespace-leak", "attribute-name", "attribute-value", "duplicate-expanded-attribute-name",
+  CASE t = "staleExcludedPrefix"          -> {"element-name", "default-namespace-leak", "attribute-name", "attribute-value", "duplicate-expanded-attribute-name",
                                               "excluded-namespace-declared", "alias-stylesheet-namespace-declared"} \cup NotWF
-    [] t = "literalAttributePrefixRebound" -> {"attribute-name", "attribute-value", "duplicate-expanded-attribute-name"} \cup NotWF
     [] OTHER -> {}
-KDTags == {"staleExcludedPrefix", "attrListKeyedByQName",
-           "literalAttributePrefixRebound"}
+KDTags == {"staleExcludedPrefix"}
 Explained(tags) == UNION {KDFaults(t) : t \in tags}
 =============================================================================
